@@ -67,6 +67,8 @@ type Ctx struct {
 	Workers  int
 
 	mu         sync.Mutex
+	smu        sync.RWMutex
+	cmap       sync.Map // name -> *int64 (lock-free fast path)
 	counters   map[string]*int64
 	viol       map[string]*Violation
 	violOrder  []string
@@ -100,6 +102,11 @@ func (c *Ctx) Thorough() bool { return c.Tier == "thorough" }
 // Expired reports whether the internal deadline passed; the run is then marked capped
 // (exhaustive:false). A deadline never produces a violation.
 func (c *Ctx) Expired() bool {
+	if atomic.LoadInt64(&c.violTotal) > 5000 {
+		// a storm of violations: what is recorded is enough; stop exploring (exhaustive:false)
+		c.capped.Store(true)
+		return true
+	}
 	if time.Now().After(c.Deadline) {
 		c.capped.Store(true)
 		return true
@@ -117,11 +124,15 @@ func (c *Ctx) SetCapped(reason string) {
 }
 
 func (c *Ctx) counter(name string) *int64 {
+	if p, ok := c.cmap.Load(name); ok {
+		return p.(*int64)
+	}
 	c.mu.Lock()
 	p, ok := c.counters[name]
 	if !ok {
 		p = new(int64)
 		c.counters[name] = p
+		c.cmap.Store(name, p)
 	}
 	c.mu.Unlock()
 	return p
@@ -181,11 +192,17 @@ func (c *Ctx) Warn(s string) {
 
 // Sample keeps up to n samples per class.
 func (c *Ctx) Sample(class string, n int, v any) {
-	c.mu.Lock()
+	c.smu.RLock()
+	full := len(c.samples[class]) >= n
+	c.smu.RUnlock()
+	if full {
+		return
+	}
+	c.smu.Lock()
 	if len(c.samples[class]) < n {
 		c.samples[class] = append(c.samples[class], v)
 	}
-	c.mu.Unlock()
+	c.smu.Unlock()
 }
 
 // Violate records a violation. key groups violations with one cause-and-shape; the
